@@ -67,6 +67,8 @@ def _far_null(case):
 
 
 def classify(run, case, impl, model):
+    if case.startswith("big"):
+        return "%s/impl=%s/model=%s" % (case.split()[0], impl.split()[0], model.split()[0])
     kind = case.split()[0].split("/")
     if _far_null(case):
         kind = [kind[0] + "+farnull"] + kind[1:]
@@ -81,6 +83,8 @@ def classify(run, case, impl, model):
 def violates(run, case, impl, model):
     # the property's own predicate on the implementation: Equal (generous limits) differs from the documented
     # equality of the walked trees, or Equal panics
+    if case.startswith("big"):
+        return impl != model    # Equal differs from the answer known by construction
     i, m = _f(impl), _f(model)
     if i[0] == "panic" or i[3] == "panic":
         return True
